@@ -14,6 +14,14 @@ use vcommon::*;
 
 static LAST_PANIC: std::sync::Mutex<Option<String>> = std::sync::Mutex::new(None);
 
+/// Resolving a backtrace costs seconds in a fresh process (debug info is
+/// parsed on first use), so it is only done when a finding is written up.
+static RESOLVE_FRAMES: std::sync::atomic::AtomicBool = std::sync::atomic::AtomicBool::new(false);
+
+pub fn set_resolve_frames(on: bool) {
+    RESOLVE_FRAMES.store(on, std::sync::atomic::Ordering::SeqCst);
+}
+
 /// Panic hook for the child: like `vcommon::quiet_panics`, but when the panic
 /// is raised inside the standard library or a dependency (capacity overflow,
 /// slice index, unwrap on None ...) the first rten frame of the backtrace is
@@ -29,6 +37,12 @@ pub fn install_child_panic_hook() {
         };
         let loc = info.location().map(|l| format!("{}:{}", l.file(), l.line())).unwrap_or_default();
         let mut text = format!("{} @ {}", msg, loc);
+        if !RESOLVE_FRAMES.load(std::sync::atomic::Ordering::SeqCst) {
+            if let Ok(mut slot) = LAST_PANIC.lock() {
+                *slot = Some(text);
+            }
+            return;
+        }
         // The rten frames below the panic: the first one outside the tensor /
         // support crates goes into the signature when the panic itself was
         // raised in the standard library, a dependency or rten-tensor.
@@ -478,6 +492,8 @@ pub struct ExecOpts {
     pub alarm_s: u32,
     /// Alarm for the (unjudged) run of the model.
     pub run_alarm_s: u32,
+    /// Resolve the rten frames under a panic (slow; write-up runs only).
+    pub resolve_frames: bool,
     /// Request well-formed top-level constants through run() (at most this many).
     pub const_outputs: usize,
     pub run_model: bool,
@@ -518,6 +534,7 @@ fn load_entry(entry: u32, bytes: &[u8], is_rten_ext: bool, env: &Env) -> Result<
 /// Execute the entry points selected by `mask` on `bytes`.
 pub fn exec_case(bytes: &[u8], mask: u32, rten_ext: bool, env: &Env, region: Option<&Region>, xo: &ExecOpts) -> Vec<EntryOut> {
     let mut outs = Vec::new();
+    set_resolve_frames(xo.resolve_frames);
     let needs_file = mask & (entry_bit(E_FILE_OPT) | entry_bit(E_FILE_NOOPT) | entry_bit(E_MMAP)) != 0;
     let mut file_ok = true;
     if needs_file {
